@@ -43,6 +43,17 @@ def generate(rnd, tier, index=0):
         if u < 0.25:
             ops.append(train("partial_fit", rnd.randint(0, 14)))
         elif u < 0.50:
+            prev = next((o for o in reversed(ops) if o["op"] == "fit"), None)
+            if ctxl and prev and rnd.random() < 0.2:
+                # the same contexts again with other decisions / rewards: every cell, bucket and leaf keeps its row
+                # POSITIONS, only what was observed there is new
+                fresh = gen.gen_rows(rnd, arms, len(prev["rows"]), len(prev["rows"][0][2]), regime, rkind, True)
+                rows = [[f[0], f[1], list(p[2])] for f, p in zip(fresh, prev["rows"])]
+                d = len(prev["rows"][0][2])
+                del stored[:]
+                stored.extend(r[2] for r in rows)
+                ops.append({"op": "fit", "rows": rows, "same_contexts": True})
+                continue
             if ctxl and rnd.random() < 0.4:
                 d = rnd.randint(1, 4)
             ops.append(train("fit", max(need, rnd.choice([1, 2, 3, rnd.randint(1, 24)]))))
@@ -90,6 +101,8 @@ def execute(case, ctx):
                 ctx.fired("probe.refit_other_columns")
             if len(rows) < P.n_rows:
                 ctx.fired("probe.refit_smaller")
+            if op.get("same_contexts"):
+                ctx.fired("probe.refit_same_contexts_other_outcomes")
             for k in since_fit:
                 ctx.fired("probe.refit_after_" + k)
             since_fit = set()
